@@ -3,6 +3,7 @@ import CoapVerif.Model.Retransmit
 import CoapVerif.Model.RetransmitKinds
 import CoapVerif.Model.RetransmitHistory
 import CoapVerif.Spec.Retransmit
+import CoapVerif.Spec.RetransmitBusy
 /-!
 Driver for C06.  One scenario per line (ops separated by `|`, see harness/c06/c06_test.go).
 `model` prints the model's prediction, one segment `tx=… ret=… oth=…` per op; `judge` takes
@@ -26,6 +27,8 @@ inductive Op
   | resp (id : Nat) (con : Bool) (tag : Nat)
   | cancel (id : Nat)
   | mut (id : Nat)
+  | hold        -- a request of the peer whose application handler does not return before `release`
+  | release
 
 def parseOp (s : String) : Option Op :=
   match words s with
@@ -77,6 +80,8 @@ def parseOp (s : String) : Option Op :=
     some (.send (← id.toNat?) d)
   -- burst: unrelated messages from the peer; no effect on any request
   | ["burst", _k] => some (.sleep 0)
+  | ["hold"] => some .hold
+  | ["release"] => some .release
   | ["sleep", d] => d.toNat?.map .sleep
   | ["tick", a] => a.toNat?.map .tick
   | ["ack", id] => id.toNat?.map .ack
@@ -135,6 +140,8 @@ def opEvents (P : Params) (s : XState) : Op → List XEv
   | .resp id _ tag => [.resp id tag]
   | .cancel id => [.cancel id .ctx]
   | .mut id => [.mut id (2 * id + 1)]
+  | .hold => []       -- (histories with holds are outside the model: `model` prints n/a)
+  | .release => []
 
 def opOther (s : XState) : Op → List String
   | .resp id true _ => if queued s id then [] else ["ack.0"]     -- a confirmable separate response is acknowledged
@@ -143,7 +150,7 @@ def opOther (s : XState) : Op → List String
 def model (line : String) : String :=
   -- a refused first transmission is outside the model (which has no failing writes): judged only
   if (line.splitOn "sendf").length > 1 || (line.splitOn " udpsrv").length > 1 || (line.splitOn "wreq ").length > 1
-      || (line.splitOn "obs ").length > 1 then "n/a" else
+      || (line.splitOn "obs ").length > 1 || (line.splitOn "hold").length > 1 then "n/a" else
   match parseOps line with
   | some (.cfg a m n :: ops) =>
     let P : Params := ⟨a, m, n⟩
@@ -170,6 +177,18 @@ def toSpecEv : Op → Spec.Retransmit.Ev
   | .resp id c tag => .resp id c tag
   | .cancel id => .cancel id
   | .mut id => .mut id
+  | .hold => .sleep 0
+  | .release => .sleep 0
+
+def toBusyEv : Op → Spec.RetransmitBusy.BEv
+  | .hold => .hold
+  | .release => .release
+  | op => .ev (toSpecEv op)
+
+def isHold : Op → Bool
+  | .hold => true
+  | .release => true
+  | _ => false
 
 def parseRes (s : String) : Option Spec.Retransmit.Res :=
   if s.startsWith "ok:" then (s.drop 3).toString.toNat?.map .ok
@@ -205,6 +224,16 @@ def judgeLine (line : String) : String :=
       if ops.length != segs.length then "violates unparsable-observation" else
       let steps : List Step := (ops.zip segs).map (fun p => ⟨toSpecEv p.1, p.2.1, p.2.2⟩)
       let c : Cfg := ⟨a, m, n⟩
+      if ops.any isHold then
+        -- the application keeps the connection busy for a while: the judge of Spec.RetransmitBusy (which is the judge of
+        -- Spec.Retransmit on histories without holds, Props/C06Busy.busy_judge_plain)
+        let bsteps : List Spec.RetransmitBusy.BStep := (ops.zip segs).map (fun p => ⟨toBusyEv p.1, p.2.1, p.2.2⟩)
+        match Spec.RetransmitBusy.busyJudge c bsteps with
+        | .ok => "ok"
+        | v =>
+          let k := (List.range (bsteps.length + 1)).find? (fun k => Spec.RetransmitBusy.busyJudge c (bsteps.take k) != .ok)
+          s!"violates {fmtVerdict v} step={k.getD 0}"
+      else
       match Spec.Retransmit.judge c steps with
       | .ok => "ok"
       | v =>
